@@ -1010,7 +1010,48 @@ pub fn registry_atomicity() -> Value {
 	if names(&snapshot) != before {
 		return fail("clone taken before the changes", format!("{:?}", names(&snapshot)), format!("{:?}", before));
 	}
-	json!({"probe":"registry_atomicity","disagrees":false,"inputs_tried":17})
+	// a failed registration leaves the ORIGINAL handler bound (not only the name): ask the module which handler answers
+	{
+		let answer = |m: &RpcModule<()>, name: &str| -> String {
+			rt().block_on(async { m.raw_json_request(&format!(r#"{{"jsonrpc":"2.0","id":1,"method":"{name}"}}"#), 1).await.map(|(rp, _)| rp.get().to_string()).unwrap_or_else(|e| format!("<{e}>")) })
+		};
+		let mut h = RpcModule::new(());
+		h.register_method("first", |_, _, _| "first").unwrap();
+		h.register_async_method("afirst", |_, _, _| async { "afirst" }).unwrap();
+		let kept = h.clone();
+		let _ = h.register_method("first", |_, _, _| "second");
+		let _ = h.register_async_method("first", |_, _, _| async { "third" });
+		let _ = h.register_blocking_method("afirst", |_, _, _| "fourth");
+		let _ = h.register_alias("first", "afirst");
+		for (m, which) in [(&h, "module"), (&kept, "clone taken before")] {
+			for name in ["first", "afirst"] {
+				let got = answer(m, name);
+				if !got.contains(&format!("\"result\":\"{name}\"")) {
+					return fail(&format!("register {name:?}, then failing registrations of the same name with other handlers; call {name:?} on the {which}"), got, format!("the result of the ORIGINAL handler: {name:?}"));
+				}
+			}
+		}
+		// merging a module of which a clone is still alive adds ALL its names (and they answer), and merging it twice fails
+		let mut api = RpcModule::new(());
+		api.register_method("api_one", |_, _, _| "api_one").unwrap();
+		api.register_method("api_two", |_, _, _| "api_two").unwrap();
+		let api_clone = api.clone();
+		let mut root = RpcModule::new(());
+		root.register_method("root", |_, _, _| "root").unwrap();
+		let ok = root.merge(api.clone()).is_ok();
+		let mut want = vec!["api_one", "api_two", "root"];
+		want.sort();
+		if !ok || names(&root) != want || !answer(&root, "api_two").contains("\"result\":\"api_two\"") {
+			return fail("merge(api.clone()) while `api` (and another clone) stay alive", format!("ok={ok} names={:?} api_two -> {}", names(&root), answer(&root, "api_two")), format!("Ok, names {want:?}, api_two answers"));
+		}
+		if root.merge(api).is_ok() || names(&root) != want {
+			return fail("merge the same module a second time", format!("names={:?}", names(&root)), "Err (names taken), nothing changed".into());
+		}
+		if names(&api_clone) != vec!["api_one", "api_two"] {
+			return fail("names of the clone of the merged module", format!("{:?}", names(&api_clone)), "[api_one, api_two]".into());
+		}
+	}
+	json!({"probe":"registry_atomicity","disagrees":false,"inputs_tried":24})
 }
 
 // ------------------------------------------------------------------------------------------
@@ -1287,6 +1328,10 @@ pub fn server_message_classification() -> Value {
 			(r#"{"jsonrpc":"2.0","\u0069d":7,"method":"add","params":[1,2]}"#, json!({"result":3,"id":7})),
 			(r#"{"\u006asonrpc":"2.0","id":8,"\u006dethod":"a\u0064d","p\u0061rams":[1,2]}"#, json!({"result":3,"id":8})),
 			(r#"{"params":[2,2],"method":"add","extra":{"id":99},"id":5,"jsonrpc":"2.0"}"#, json!({"result":4,"id":5})),
+			(r#"{"jsonrpc":"2\u002e0","id":7,"method":"add","params":[1,2]}"#, json!({"result":3,"id":7})),
+			(r#"{"jsonrpc":"\u0032.0","id":"v","method":"aadd","params":[1,2]}"#, json!({"result":3,"id":"v"})),
+			(r#"{"jsonrpc":"2.\u0030","method":"add","params":[1,2]}"#, Value::Null),
+			(r#"[{"jsonrpc":"2\u002e0","id":1,"method":"add","params":[1]},{"jsonrpc":"2.\u0030","method":"add","params":[1,2]}]"#, json!([{"result":1,"id":1}])),
 			("{\n\t\"jsonrpc\" : \"2.0\" ,\r\n \"id\" : 6 , \"method\" : \"add\" , \"params\" : [ 1 , 2 ] }\n", json!({"result":3,"id":6})),
 			(r#"{"jsonrpc":"2.0","id":41,"method":"boom"}"#, err(-32603, json!(41))),
 			(r#"{"jsonrpc":"2.0","id":"forty-two","method":"boom"}"#, err(-32603, json!("forty-two"))),
@@ -1938,7 +1983,34 @@ pub fn response_member_forms() -> Value {
 			Err(e) => return json!({"probe":"response_member_forms","disagrees":true,"input":ntext,"observed":format!("notification rejected: {e}"),"expected":"accepted"}),
 		}
 	}
-	json!({"probe":"response_member_forms","disagrees":false,"inputs_tried":tried,"bound":"all member sequences of length 1..4 over 9 member tokens (jsonrpc x4 spellings, id x2, result, error, unknown); 5 request/notification round trips"})
+	// unknown members are IGNORED whatever they hold — values the known members accept (deep nesting, numbers beyond f64) included
+	{
+		use jsonrpsee_types::{Request, Notification};
+		let deep = format!("{}1{}", "[".repeat(200), "]".repeat(200));
+		let payloads: Vec<(&str, String)> = vec![("a 200-level nested array", deep.clone()), ("the number 1e999", "1e999".into()), ("the number -1E+400", "-1E+400".into()),
+			("a 40-digit integer", "1234567890123456789012345678901234567890".into()), ("an object with a duplicate key", r#"{"a":1,"a":2}"#.into())];
+		for (what, pl) in &payloads {
+			for text in [format!(r#"{{"jsonrpc":"2.0","x":{pl},"id":1,"result":true}}"#), format!(r#"{{"jsonrpc":"2.0","id":1,"x":{pl},"result":true}}"#), format!(r#"{{"jsonrpc":"2.0","id":1,"error":{{"code":-32000,"message":"m"}},"x":{pl}}}"#)] {
+				tried += 1;
+				if let Err(e) = serde_json::from_str::<Response<&serde_json::value::RawValue>>(&text) {
+					return json!({"probe":"response_member_forms","disagrees":true,"input":format!("response with an unknown member holding {what}: {}", &text[..text.len().min(120)]),"observed":format!("rejected: {e}"),"expected":"accepted (unknown members are ignored)"});
+				}
+			}
+		}
+		// the version marker in ANY JSON spelling, on requests and notifications as well
+		for ver in [r#""2\u002e0""#, r#""\u0032.0""#, r#""2.\u0030""#] {
+			tried += 2;
+			let rq = format!(r#"{{"jsonrpc":{ver},"id":7,"method":"add","params":[1,2]}}"#);
+			let nt = format!(r#"{{"jsonrpc":{ver},"method":"add","params":[1,2]}}"#);
+			if let Err(e) = serde_json::from_str::<Request>(&rq) {
+				return json!({"probe":"response_member_forms","disagrees":true,"input":rq,"observed":format!("request rejected: {e}"),"expected":"accepted: the member spells 2.0"});
+			}
+			if let Err(e) = serde_json::from_str::<Notification<Option<&serde_json::value::RawValue>>>(&nt) {
+				return json!({"probe":"response_member_forms","disagrees":true,"input":nt,"observed":format!("notification rejected: {e}"),"expected":"accepted: the member spells 2.0"});
+			}
+		}
+	}
+	json!({"probe":"response_member_forms","disagrees":false,"inputs_tried":tried,"bound":"all member sequences of length 1..4 over 9 member tokens (jsonrpc x4 spellings, id x2, result, error, unknown); 5 request/notification round trips; 5 awkward payloads under an unknown member x 3 positions; 3 escaped spellings of the version on requests and notifications"})
 }
 
 // ------------------------------------------------------------------------------------------
